@@ -322,7 +322,7 @@ func (l *Lexer) readNumber(ch byte) (token.Type, string) {
 	if l.peekChar() == '.' {
 		if dotSeen {
 			// Stop if we see another dot
-			return t, string(l.input[pos : l.pos-1])
+			return t, string(l.input[pos:l.pos])
 		}
 		t = token.FLOAT
 		l.pos++
